@@ -187,3 +187,38 @@ def r_titleparts(t: str, count: int, first: int) -> str:
             out += "/"
         out += segs[i]
     return out
+
+
+# ---------------------------------------------------------------- urlencode / #urldecode (Help:Magic words#URL data)
+UNRESERVED = "ABCDEFGHIJKLMNOPQRSTUVWXYZabcdefghijklmnopqrstuvwxyz0123456789-_."
+HEX = "0123456789ABCDEF"
+
+
+def _utf8(cp: int) -> list:
+    if cp < 0x80:
+        return [cp]
+    if cp < 0x800:
+        return [0xC0 | (cp >> 6), 0x80 | (cp & 0x3F)]
+    if cp < 0x10000:
+        return [0xE0 | (cp >> 12), 0x80 | ((cp >> 6) & 0x3F), 0x80 | (cp & 0x3F)]
+    return [0xF0 | (cp >> 18), 0x80 | ((cp >> 12) & 0x3F), 0x80 | ((cp >> 6) & 0x3F), 0x80 | (cp & 0x3F)]
+
+
+def r_urlencode(s: str, fmt: str, codepoint) -> str:
+    """urlencode (CoreParserFunctions::urlencode): the argument is trimmed, then
+    QUERY (default) = PHP urlencode: letters, digits and - _ . stay, a space becomes '+', every other byte %XX;
+    PATH = PHP rawurlencode: letters, digits and - _ . ~ stay, every other byte (space included) %XX;
+    WIKI = wfUrlencode(str_replace(' ', '_', s)): every space becomes '_', then like QUERY except that ; @ $ ! * ( ) , / ~ :
+    stay.  `codepoint` maps a character to its code point (passed in so that a harness can use a table instead of ord())."""
+    s = trim(s)
+    out = []
+    for ch in s:
+        if ch == " " and fmt == "WIKI":
+            out.append("_")
+        elif ch == " " and fmt == "QUERY":
+            out.append("+")
+        elif ch in UNRESERVED or (ch == "~" and fmt != "QUERY") or (fmt == "WIKI" and ch in ";@$!*(),/:"):
+            out.append(ch)
+        else:
+            out.append("".join("%" + HEX[b >> 4] + HEX[b & 15] for b in _utf8(codepoint(ch))))
+    return "".join(out)
